@@ -39,7 +39,7 @@ def plan(tier, seed):
     for i in range(n):
         specs.append({'kind': 'programs', 'count': 110 if tier == 'quick' else 600, 'cli': i < 2})
     for i in range(3 if tier == 'quick' else 12):
-        specs.append({'kind': 'big', 'count': 1 if tier == 'quick' else 3})
+        specs.append({'kind': 'big', 'count': 1 if tier == 'quick' else 3, 'nnames': (3000, 1500, 900)[i % 3]})
     specs.append({'kind': 'factory', 'n': 20000 if tier == 'quick' else 500000})
     return specs
 
@@ -199,6 +199,15 @@ def big_program(rng, nnames):
     rng.shuffle(pool)
     big = progen.Program()
     big.toks, big.scopes, big.stmts, big.names = [], [], [], []
+    # every pool name occurs at least once: `local n1, n2, ... ` in chunks
+    for k in range(0, len(pool), 50):
+        big.stmts.append(len(big.toks))
+        big.toks.append(('keyword', b'local'))
+        for j, nm in enumerate(pool[k:k + 50]):
+            if j:
+                big.toks.append(('symbol', b','))
+            big.names.append(len(big.toks))
+            big.toks.append(('name', nm))
     used = 0
     while used < nnames * 3:
         sub = pool[used % len(pool):used % len(pool) + 40] or pool[:40]
@@ -265,13 +274,13 @@ def run_shard(spec, ctx):
                     ctx.sample({'source': src[:160], 'config': config, 'keep': keep})
         elif spec['kind'] == 'big':
             for i in range(spec['count']):
-                big = big_program(rng, rng.choice((800, 1500, 3000)))
+                big = big_program(rng, spec.get('nnames', 3000))
                 src = layout.render(big, rng, style=rng.choice(('tight', 'normal', 'lines')))
                 if src is None:
                     ctx.monitor('generator_rejects')
                     continue
                 ctx.feature('big_programs')
-                config = rng.choice(('default', 'keep_file'))
+                config = ('default', 'keep_file')[i % 2]
                 run_one(ctx, src, big.scopes, config, [b'a', b'ba', b'v1', b'aaa', b'abc'], workdir)
         else:
             from pico8.lua import lua
